@@ -874,6 +874,8 @@ class DimEval:
         """SmoothData1D(x, y, sigma=s): s must have the unit of x — evaluated per
         reaching definition so that user-supplied (unknown) values do not mask a default."""
         checked = 0
+        while isinstance(s, ast.Call) and (self.resolved(s) in PRESERVE_FUNCS or (dotted(s.func) or "") in ("float",)) and len(s.args) == 1 and not s.keywords:
+            s = s.args[0]
         if isinstance(s, ast.Name) and at is not None:
             for d in self.flat_defs(s.id, at):
                 if d is self.fv.cfg.entry or d.stmt is None:
